@@ -42,6 +42,11 @@ func vLinMatches(kind int, bufSize int64, initial int64, order []int, ops []vLOp
 			// callback already in progress may finish"): the model lets s0 keep listening and the
 			// comparison below accepts any prefix of what it would then have received.
 			unsub0 = true
+			if kind == vsUnicast {
+				// unicast admits one subscriber at a time: whether a later Subscribe is admitted
+				// depends on s0 having left, so here the model must let it leave
+				m.subs[0].active = false
+			}
 		}
 	}
 	cmp := func(got []vEv, want []vEv) bool {
@@ -128,10 +133,24 @@ func vC10Conc(kind int, via bool) {
 		}
 	}
 	if kind == vsUnicast {
-		// unicast admits one subscriber at a time: keep Subscribe out of the concurrent part
+		// unicast admits one subscriber at a time: at most one Subscribe in the concurrent part (it
+		// is admitted if s0 has left by then, rejected with ErrUnicastSubjectConcurrent otherwise)
+		nsub := 0
 		for i := range ops {
 			if ops[i].kind == 2 {
-				vAssume(false)
+				nsub++
+			}
+		}
+		if nsub > 1 {
+			vAssume(false)
+		}
+		if nsub == 1 {
+			// a subscriber arriving after the termination is the listed finding of vhC10_seq_unicast
+			// (backlog not replayed): keep terminals out of the histories with a Subscribe
+			for i := range ops {
+				if ops[i].kind == 1 {
+					vAssume(false)
+				}
 			}
 		}
 	}
@@ -186,7 +205,24 @@ func vC10Conc(kind int, via bool) {
 			break
 		}
 	}
-	vAssert(found, name+": the concurrent history has no linearization under the sequential definition")
+	class := ""
+	if kind == vsUnicast {
+		nu, ns := 0, 0
+		for i := range ops {
+			if ops[i].kind == 3 {
+				nu++
+			}
+			if ops[i].kind == 2 {
+				ns++
+			}
+		}
+		if nu >= 2 && ns == 1 {
+			// a listed finding: of two concurrent Unsubscribe calls the second returns at once while the
+			// first is still releasing, so a Subscribe issued after that return can still be refused
+			class = " [two concurrent Unsubscribe calls and a Subscribe]"
+		}
+	}
+	vAssert(found, name+": the concurrent history has no linearization under the sequential definition"+class)
 	vReach("end")
 }
 
